@@ -362,7 +362,7 @@ pub fn initialize_check(ctx: &mut Ctx, w: &World, a: &Agreed, d: &EstD, expect: 
     let book = ctx.book.clone();
     let proof = match d.real(&book) {
         Ok(p) => p,
-        Err(e) => { ctx.broken(&format!("establish proof does not decode: {}", e)); return None; }
+        Err(e) => { if expect.is_none() { ctx.count("initialize:proof-has-no-wire-encoding"); } else { ctx.broken(&format!("establish proof does not decode: {}", e)); } return None; }
     };
     let (mbal, cbal) = (MerchantBalance::try_new(a.mb).ok()?, CustomerBalance::try_new(a.cb).ok()?);
     let mut rng = crate::rng::ScriptedRng::new(ctx.prng.gen(), book.clone());
